@@ -66,6 +66,10 @@ def main():
         meta["ran"].append({"cmd": "demo on unmodified tree", "exit": rc0})
         rca, outa = sh("git apply %s" % patch, cwd=wt)
         if rca != 0:
+            # /repo moved on (a later fix: commit touched the same file): merge the change in
+            rca, outa = sh("git apply --3way %s && git reset -q" % patch, cwd=wt)
+            meta["ran"].append({"cmd": "patch applied with --3way onto the newer /repo HEAD", "exit": rca})
+        if rca != 0:
             print("PATCH DOES NOT APPLY:", outa[-500:])
             return 2
         rct, outt = sh("%s -m pytest -q -p no:cacheprovider --timeout=900 2>&1 | tail -3" % PY, cwd=wt, env=env)
